@@ -198,9 +198,34 @@ func reflJobs(c *Ctx) []ReflJob {
 	return jobs
 }
 
+// reflFieldGroupJobs: every field of the checked-in types, in groups of a few fields, all
+// histories of length 2 with nested paths one level deep -- the checked-in files are hand-kept
+// copies of generator output, so each field's accessors are separate code that can drift alone.
+func reflFieldGroupJobs(c *Ctx) []ReflJob {
+	var jobs []ReflJob
+	for _, t := range c.S.Types {
+		if !isCheckedIn(t) || len(t.Names) < 6 {
+			continue
+		}
+		per := 6
+		for i := 0; i < len(t.Names); i += per {
+			j := i + per
+			if j > len(t.Names) {
+				j = len(t.Names)
+			}
+			jobs = append(jobs, ReflJob{t.Name, strings.Join(t.Names[i:j], ","), 2, 1})
+		}
+	}
+	return jobs
+}
+
 // mcReflectCheck runs direction A for the reflection machine; inScope filters pulsar verdicts.
 func mcReflectCheck(c *Ctx, inScope func(v ReflVerdict) bool) {
-	verdicts, st := runMCReflect(c, reflJobs(c))
+	mcReflectCheckJobs(c, reflJobs(c), inScope)
+}
+
+func mcReflectCheckJobs(c *Ctx, jobs []ReflJob, inScope func(v ReflVerdict) bool) {
+	verdicts, st := runMCReflect(c, jobs)
 	for _, v := range verdicts {
 		if v.Who != "pulsar" {
 			c.R.InternalErr("spec and reference (dynamicpb) disagree: job=%v what=%s op=%s read=%s obs=%s want=%s path=%v", v.Job, v.What, opName(v.Op), opName(v.Read), trunc(string(v.Obs), 200), trunc(string(v.Want), 200), v.P)
@@ -354,7 +379,7 @@ var reflTrusted = []string{"TLC 1.8.0 / SANY", "CommunityModules Json/IOUtils", 
 func init() {
 	register(&Check{ID: "C08", Level: "model_checking", Run: func(c *Ctx) {
 		c.R.Trusted = reflTrusted
-		mcReflectCheck(c, func(v ReflVerdict) bool { return !strings.HasPrefix(v.What, "nil:") })
+		mcReflectCheckJobs(c, append(reflJobs(c), reflFieldGroupJobs(c)...), func(v ReflVerdict) bool { return !strings.HasPrefix(v.What, "nil:") })
 		reflectTraceRun(c, c.pick(4, 40), c.pick(60, 200), func(what, op string) bool { return true })
 		// the oneof discipline for histories of ANY length (inductive invariant, Apalache)
 		oneofInductive(c)
